@@ -42,6 +42,9 @@ def consts_of(scn):
     svc = dict(scn.get("services", {}))
     allp = {**pay, **svc}
     ends = {p: ({how_class(allp[p]["immediate"])} if allp[p].get("immediate") else set()) for p in allp}
+    for p in allp:
+        if allp[p].get("on_cancel"):
+            ends[p].add(how_class(allp[p]["on_cancel"]))
     pre, seen_accept, execs = set(), False, []
     for op in scn["script"]:
         o = op["op"]
